@@ -90,6 +90,19 @@ func genC11StepsAt(t *rapid.T, depth int, top bool) []Step {
 				continue
 			}
 			usedSubs[name] = true
+			if rapid.IntRange(0, 3).Draw(t, "suite") == 0 {
+				// a subtest whose function lives in a NON-test file (a shared conformance suite): no *_test.go frame on its stack;
+				// the "test file" of the statement is the file that declares the subtest function (suite.go)
+				var inner []Step
+				for _, st := range genC11StepsAt(t, 0, false) {
+					if st.Shape == "closure" || st.Shape == "helper_same" {
+						st.Shape = rapid.SampledFrom([]string{"direct", "helper_nontest", "helper_pkg"}).Draw(t, "suiteshape")
+					}
+					inner = append(inner, st)
+				}
+				steps = append(steps, Step{Op: "sub", Name: name, Suite: true, Steps: inner})
+				continue
+			}
 			steps = append(steps, Step{Op: "sub", Name: name, Steps: genC11StepsAt(t, depth-1, false)})
 			continue
 		}
@@ -146,6 +159,13 @@ func expectedC11(c c11Case, absDir string) (files map[string][]string) {
 		for _, st := range steps {
 			switch st.Op {
 			case "sub":
+				if st.Suite {
+					saved := base
+					base = "suite"
+					walk(name+"/"+rewriteName(st.Name), st.Steps)
+					base = saved
+					continue
+				}
 				walk(name+"/"+rewriteName(st.Name), st.Steps)
 			case "call":
 				dir := "__snapshots__"
@@ -220,7 +240,8 @@ func observedFiles() map[string]string {
 			return nil
 		}
 		rel, _ := filepath.Rel(shardRoot(), p)
-		if strings.HasPrefix(rel, "mod/io") || strings.HasPrefix(rel, "mod/bin") || strings.HasPrefix(rel, "foreign") {
+		mod := filepath.Base(scnRoot)
+		if strings.HasPrefix(rel, mod+"/io") || strings.HasPrefix(rel, mod+"/bin") || strings.HasPrefix(rel, "foreign") {
 			return nil
 		}
 		b, _ := os.ReadFile(p)
@@ -259,6 +280,7 @@ func checkC11(c c11Case) error {
 		{"-trimpath build with GOFLAGS=-trimpath in the environment (as under `GOFLAGS=-trimpath go test`)", RunOpts{Pkg: c.Pkg, Trim: true, GoFlags: "-trimpath"}},
 		{"normal build with unrelated GOFLAGS in the environment", RunOpts{Pkg: c.Pkg, GoFlags: "-mod=mod -count=1"}},
 		{"-trimpath build with unrelated GOFLAGS in the environment", RunOpts{Pkg: c.Pkg, Trim: true, GoFlags: "-mod=mod"}},
+		{"normal build, every test executed twice (-test.count=2): the second execution replays what the first created", RunOpts{Pkg: c.Pkg, Count: 2}},
 		{"normal build, foreign cwd, GOFLAGS=-trimpath=false in the environment", RunOpts{Pkg: c.Pkg, Cwd: foreign, GoFlags: "-trimpath=false"}},
 		{"normal build, foreign cwd, GOFLAGS=-gcflags=-trimpath=/src -mod=mod in the environment", RunOpts{Pkg: c.Pkg, Cwd: foreign, GoFlags: "-gcflags=-trimpath=/src -mod=mod"}},
 	}
@@ -332,6 +354,9 @@ func classifyC11(c c11Case) ([]string, bool) {
 		for _, st := range steps {
 			if st.Op == "sub" {
 				cls = append(cls, "subtest")
+				if st.Suite {
+					cls = append(cls, "subtest_function_in_non_test_file")
+				}
 				if strings.ContainsAny(st.Name, "%/ ") {
 					cls = append(cls, "special_subtest_name")
 					nt = true
